@@ -2,7 +2,10 @@
 //! capsule / FIN / reset onto DriverError, C13 unknown capsules and non-DATA frames skipped
 use super::*;
 use crate::driver::streams::connect::ConnectStream;
-use crate::driver::streams::models::{Ev, Script, PAYLOAD_MAX};
+use crate::driver::streams::models::{Ev, Script};
+use std::borrow::Cow;
+use wtransport_proto::frame::Frame;
+use wtransport_proto::varint::VarInt;
 use crate::driver::streams::session::StreamSession;
 use crate::driver::DriverError;
 use std::cell::Cell;
@@ -16,7 +19,7 @@ struct Outcome {
     reads: usize,
 }
 
-fn run(events: [Ev; 3], n: usize) -> Outcome {
+fn run(events: [Option<Ev>; 3], n: usize) -> Outcome {
     let log = Rc::new(Cell::new(None));
     let mut cs = ConnectStream::empty();
     cs.set_stream(StreamSession { script: Script { events, n, reads: 0 }, reset_log: log.clone(), stop_log: Rc::new(Cell::new(None)) });
@@ -24,45 +27,32 @@ fn run(events: [Ev; 3], n: usize) -> Outcome {
     Outcome { err, reset: log.get(), taken: cs.is_empty(), reads: 0 }
 }
 
-/// an ignorable event in front of the decisive one: HEADERS / GREASE frame, or a DATA frame holding an unknown capsule
-fn any_ignorable() -> Ev {
-    let k: u8 = kani::any();
-    kani::assume(k < 3);
-    let mut bytes = [0u8; PAYLOAD_MAX];
-    match k {
-        0 => Ev::Frame { kind: 1, bytes, len: 0 },
-        1 => Ev::Frame { kind: 3, bytes, len: 0 },
+/// an ignorable event in front of the decisive one; the KIND is fixed per harness instance (a symbolic kind gives the
+/// frame a symbolic length, and a Vec allocated under a symbolic length is a merged pointer: slow and over-approximated):
+/// 1 HEADERS frame, 2 GREASE frame, 3 DATA frame holding an unknown capsule (symbolic 1-byte type, one payload byte)
+fn ignorable(kind: u8) -> Ev {
+    match kind {
+        1 => Ev::Frame(Frame::new_headers(Cow::Owned(Vec::new()))),
+        2 => Ev::Frame(Frame::new_exercise(VarInt::from_u32(0x21), Cow::Owned(Vec::new()))),
         _ => {
-            // DATA frame with an unknown capsule type t (1-byte varint != 0x2843 trivially), length 1, one byte
             let t: u8 = kani::any();
             kani::assume(t < 0x40);
-            bytes[0] = t;
-            bytes[1] = 1;
-            bytes[2] = kani::any();
-            Ev::Frame { kind: 0, bytes, len: 3 }
+            let p: u8 = kani::any();
+            Ev::Frame(Frame::new_data(Cow::Owned([t, 1, p].to_vec())))
         }
     }
 }
 
-fn close_capsule<const R: usize>() {
+fn close_capsule<const R: usize, const PREFIX: u8>() {
     let code: u32 = kani::any();
     let reason: [u8; R] = kani::any();
-    let mut bytes = [0u8; PAYLOAD_MAX];
-    bytes[0] = 0x68;
-    bytes[1] = 0x43;
-    bytes[2] = (4 + R) as u8;
-    bytes[3] = (code >> 24) as u8;
-    bytes[4] = (code >> 16) as u8;
-    bytes[5] = (code >> 8) as u8;
-    bytes[6] = code as u8;
-    let mut i = 0;
-    while i < R {
-        bytes[7 + i] = reason[i];
-        i += 1;
-    }
-    let capsule = Ev::Frame { kind: 0, bytes, len: 7 + R };
-    let with_prefix: bool = kani::any();
-    let events = if with_prefix { [any_ignorable(), capsule, Ev::NotConnected] } else { [capsule, Ev::NotConnected, Ev::NotConnected] };
+    let head = [0x68, 0x43, (4 + R) as u8, (code >> 24) as u8, (code >> 16) as u8, (code >> 8) as u8, code as u8];
+    let mut payload: Vec<u8> = Vec::with_capacity(7 + R);
+    payload.extend_from_slice(&head);
+    payload.extend_from_slice(&reason);
+    let capsule = Some(Ev::Frame(Frame::new_data(Cow::Owned(payload))));
+    let with_prefix = PREFIX != 0;
+    let events = if with_prefix { [Some(ignorable(PREFIX)), capsule, None] } else { [capsule, None, None] };
     let out = run(events, if with_prefix { 2 } else { 1 });
     let valid = utf8_model_ok(&reason);
     match &out.err {
@@ -76,7 +66,7 @@ fn close_capsule<const R: usize>() {
                 i += 1;
             }
             assert!(out.reset == Some(0x100) && out.taken, "session stream not reset with H3_NO_ERROR after the close capsule");
-            kani::cover!(with_prefix, "ignorable element before the close capsule");
+            kani::cover!(true, "application close reported");
             kani::cover!(code == u32::MAX, "largest code");
         }
         DriverError::Proto(e) => {
@@ -92,38 +82,75 @@ fn close_capsule<const R: usize>() {
 
 // @h props=C04,C13 tier=quick t=3000 mem=20 sub=connect-close-capsule
 // @fn wtransport/src/driver/streams/connect.rs ConnectStream::run (re-hosted); wtransport-proto/src/capsule/mod.rs Capsule::with_frame; wtransport-proto/src/capsule/close_wt_session.rs CloseWebTransportSession::with_capsule; wtransport/src/error.rs ApplicationClose::new (sliced)
-// @bound every 32-bit code, every 2-byte reason; optionally preceded by one ignorable element (HEADERS frame, GREASE frame, or DATA frame with an unknown 1-byte capsule type and one payload byte)
+// @bound close capsule with every 32-bit code and every 2-byte reason, no element before it
 // @oracle valid UTF-8 => ApplicationClosed with exactly that code and reason, stream reset with H3_NO_ERROR; ill-formed UTF-8 => Proto(H3_DATAGRAM_ERROR), never ApplicationClosed; the ignorable element changes nothing (C13)
 // @assume scripted StreamSession model; run_utf8_validation stubbed by the byte-wise model; mproto mirror as wtransport-proto
-// @outside reasons > 2 bytes in quick (thorough: 5); capsules split across DATA frames
+// @outside other reason lengths (boundary 1024/1025: c11_capsule_reason_*); capsules split across DATA frames
+// @unwindset ConnectStream::run:4
 #[kani::proof]
 #[kani::unwind(14)]
 #[kani::stub(core::str::validations::run_utf8_validation, crate::vh::utf8_validation_stub)]
-fn d_connect_close_capsule_r2() {
-    close_capsule::<2>()
+fn d_connect_close_capsule_r2_p0() {
+    close_capsule::<2, 0>()
 }
 
-// @h props=C04 tier=thorough t=3600 mem=24 sub=connect-close-capsule
-// @fn wtransport/src/driver/streams/connect.rs ConnectStream::run
-// @bound as d_connect_close_capsule_r2 with a 5-byte reason
-// @oracle as d_connect_close_capsule_r2
-// @assume as d_connect_close_capsule_r2
+// @h props=C04,C13 tier=quick t=3000 mem=20 sub=connect-close-capsule
+// @fn wtransport/src/driver/streams/connect.rs ConnectStream::run (re-hosted); wtransport-proto/src/capsule/mod.rs Capsule::with_frame; wtransport-proto/src/capsule/close_wt_session.rs CloseWebTransportSession::with_capsule; wtransport/src/error.rs ApplicationClose::new (sliced)
+// @bound close capsule with every 32-bit code and every 2-byte reason, preceded by a DATA frame holding an unknown capsule (symbolic 1-byte type, one payload byte)
+// @oracle valid UTF-8 => ApplicationClosed with exactly that code and reason, stream reset with H3_NO_ERROR; ill-formed UTF-8 => Proto(H3_DATAGRAM_ERROR), never ApplicationClosed; the ignorable element changes nothing (C13)
+// @assume scripted StreamSession model; run_utf8_validation stubbed by the byte-wise model; mproto mirror as wtransport-proto
+// @outside other reason lengths (boundary 1024/1025: c11_capsule_reason_*); capsules split across DATA frames
+// @unwindset ConnectStream::run:4
 #[kani::proof]
 #[kani::unwind(14)]
 #[kani::stub(core::str::validations::run_utf8_validation, crate::vh::utf8_validation_stub)]
-fn d_connect_close_capsule_r5() {
-    close_capsule::<5>()
+fn d_connect_close_capsule_r2_p3() {
+    close_capsule::<2, 3>()
 }
 
-// @h props=C04,C13 tier=quick t=3000 mem=20 sub=connect-termination
-// @fn wtransport/src/driver/streams/connect.rs ConnectStream::run
-// @bound one terminating event (clean FIN, FIN inside a frame, reset, connection lost, H3 error with one of 5 codes), optionally preceded by one ignorable element
-// @oracle clean FIN => ApplicationClosed(0, ""); UnexpectedFin / Reset => Proto(H3_CLOSED_CRITICAL_STREAM), never ApplicationClosed; NotConnected => NotConnected; H3(c) => Proto(c); ignorable elements never close the session by themselves
-// @assume scripted StreamSession model
+// @h props=C04,C13 tier=thorough t=3000 mem=20 sub=connect-close-capsule
+// @fn wtransport/src/driver/streams/connect.rs ConnectStream::run (re-hosted); wtransport-proto/src/capsule/mod.rs Capsule::with_frame; wtransport-proto/src/capsule/close_wt_session.rs CloseWebTransportSession::with_capsule; wtransport/src/error.rs ApplicationClose::new (sliced)
+// @bound close capsule with every 32-bit code and every 2-byte reason, preceded by a HEADERS frame
+// @oracle valid UTF-8 => ApplicationClosed with exactly that code and reason, stream reset with H3_NO_ERROR; ill-formed UTF-8 => Proto(H3_DATAGRAM_ERROR), never ApplicationClosed; the ignorable element changes nothing (C13)
+// @assume scripted StreamSession model; run_utf8_validation stubbed by the byte-wise model; mproto mirror as wtransport-proto
+// @outside other reason lengths (boundary 1024/1025: c11_capsule_reason_*); capsules split across DATA frames
+// @unwindset ConnectStream::run:4
 #[kani::proof]
 #[kani::unwind(14)]
 #[kani::stub(core::str::validations::run_utf8_validation, crate::vh::utf8_validation_stub)]
-fn d_connect_termination() {
+fn d_connect_close_capsule_r2_p1() {
+    close_capsule::<2, 1>()
+}
+
+// @h props=C04,C13 tier=thorough t=3000 mem=20 sub=connect-close-capsule
+// @fn wtransport/src/driver/streams/connect.rs ConnectStream::run (re-hosted); wtransport-proto/src/capsule/mod.rs Capsule::with_frame; wtransport-proto/src/capsule/close_wt_session.rs CloseWebTransportSession::with_capsule; wtransport/src/error.rs ApplicationClose::new (sliced)
+// @bound close capsule with every 32-bit code and every 2-byte reason, preceded by a GREASE frame
+// @oracle valid UTF-8 => ApplicationClosed with exactly that code and reason, stream reset with H3_NO_ERROR; ill-formed UTF-8 => Proto(H3_DATAGRAM_ERROR), never ApplicationClosed; the ignorable element changes nothing (C13)
+// @assume scripted StreamSession model; run_utf8_validation stubbed by the byte-wise model; mproto mirror as wtransport-proto
+// @outside other reason lengths (boundary 1024/1025: c11_capsule_reason_*); capsules split across DATA frames
+// @unwindset ConnectStream::run:4
+#[kani::proof]
+#[kani::unwind(14)]
+#[kani::stub(core::str::validations::run_utf8_validation, crate::vh::utf8_validation_stub)]
+fn d_connect_close_capsule_r2_p2() {
+    close_capsule::<2, 2>()
+}
+
+// @h props=C04,C13 tier=thorough t=3000 mem=20 sub=connect-close-capsule
+// @fn wtransport/src/driver/streams/connect.rs ConnectStream::run (re-hosted); wtransport-proto/src/capsule/mod.rs Capsule::with_frame; wtransport-proto/src/capsule/close_wt_session.rs CloseWebTransportSession::with_capsule; wtransport/src/error.rs ApplicationClose::new (sliced)
+// @bound close capsule with every 32-bit code and every 5-byte reason, no element before it
+// @oracle valid UTF-8 => ApplicationClosed with exactly that code and reason, stream reset with H3_NO_ERROR; ill-formed UTF-8 => Proto(H3_DATAGRAM_ERROR), never ApplicationClosed; the ignorable element changes nothing (C13)
+// @assume scripted StreamSession model; run_utf8_validation stubbed by the byte-wise model; mproto mirror as wtransport-proto
+// @outside other reason lengths (boundary 1024/1025: c11_capsule_reason_*); capsules split across DATA frames
+// @unwindset ConnectStream::run:4
+#[kani::proof]
+#[kani::unwind(14)]
+#[kani::stub(core::str::validations::run_utf8_validation, crate::vh::utf8_validation_stub)]
+fn d_connect_close_capsule_r5_p0() {
+    close_capsule::<5, 0>()
+}
+
+fn termination<const PREFIX: u8>() {
     let k: u8 = kani::any();
     kani::assume(k < 5);
     let hsel: u8 = kani::any();
@@ -136,13 +163,13 @@ fn d_connect_termination() {
         3 => Ev::NotConnected,
         _ => Ev::H3(hcodes[hsel as usize]),
     };
-    let with_prefix: bool = kani::any();
-    let events = if with_prefix { [any_ignorable(), term, Ev::NotConnected] } else { [term, Ev::NotConnected, Ev::NotConnected] };
+    let with_prefix = PREFIX != 0;
+    let events = if with_prefix { [Some(ignorable(PREFIX)), Some(term), None] } else { [Some(term), None, None] };
     let out = run(events, if with_prefix { 2 } else { 1 });
     match (&out.err, k) {
         (DriverError::ApplicationClosed(ac), 0) => {
             assert!(ac.code().into_inner() == 0 && ac.reason().is_empty(), "clean finish must be code 0, empty reason");
-            kani::cover!(with_prefix, "clean FIN after an ignorable element");
+            kani::cover!(true, "clean FIN");
         }
         (DriverError::Proto(e), 1) | (DriverError::Proto(e), 2) => {
             assert!(e.to_code().into_inner() == 0x104, "abrupt termination must be H3_CLOSED_CRITICAL_STREAM");
@@ -161,40 +188,98 @@ fn d_connect_termination() {
     core::mem::forget(out);
 }
 
-// @h props=C04,C11 tier=quick t=3000 mem=20 sub=connect-malformed-capsule
-// @fn wtransport/src/driver/streams/connect.rs ConnectStream::run; wtransport-proto/src/capsule/close_wt_session.rs CloseWebTransportSession::with_capsule
-// @bound a DATA frame holding a close capsule whose declared length L is 0..=3 (too short for the code), contents symbolic, followed by connection loss
-// @oracle Proto(H3_DATAGRAM_ERROR); never ApplicationClosed
+// @h props=C04,C13 tier=quick t=3000 mem=20 sub=connect-termination
+// @fn wtransport/src/driver/streams/connect.rs ConnectStream::run
+// @bound one terminating event (clean FIN, FIN inside a frame, reset, connection lost, H3 error with one of 5 codes), not preceded by anything
+// @oracle clean FIN => ApplicationClosed(0, ""); UnexpectedFin / Reset => Proto(H3_CLOSED_CRITICAL_STREAM), never ApplicationClosed; NotConnected => NotConnected; H3(c) => Proto(c); ignorable elements never close the session by themselves
 // @assume scripted StreamSession model
+// @unwindset ConnectStream::run:4
 #[kani::proof]
 #[kani::unwind(14)]
 #[kani::stub(core::str::validations::run_utf8_validation, crate::vh::utf8_validation_stub)]
-fn d_connect_short_capsule() {
-    let l: u8 = kani::any();
-    kani::assume(l <= 3);
-    let mut bytes: [u8; PAYLOAD_MAX] = kani::any();
-    bytes[0] = 0x68;
-    bytes[1] = 0x43;
-    bytes[2] = l;
-    let capsule = Ev::Frame { kind: 0, bytes, len: 3 + l as usize };
-    let out = run([capsule, Ev::NotConnected, Ev::NotConnected], 1);
+fn d_connect_termination_p0() {
+    termination::<0>()
+}
+
+// @h props=C04,C13 tier=quick t=3000 mem=20 sub=connect-termination
+// @fn wtransport/src/driver/streams/connect.rs ConnectStream::run
+// @bound one terminating event (clean FIN, FIN inside a frame, reset, connection lost, H3 error with one of 5 codes), preceded by a DATA frame holding an unknown capsule
+// @oracle clean FIN => ApplicationClosed(0, ""); UnexpectedFin / Reset => Proto(H3_CLOSED_CRITICAL_STREAM), never ApplicationClosed; NotConnected => NotConnected; H3(c) => Proto(c); ignorable elements never close the session by themselves
+// @assume scripted StreamSession model
+// @unwindset ConnectStream::run:4
+#[kani::proof]
+#[kani::unwind(14)]
+#[kani::stub(core::str::validations::run_utf8_validation, crate::vh::utf8_validation_stub)]
+fn d_connect_termination_p3() {
+    termination::<3>()
+}
+
+// @h props=C04,C13 tier=thorough t=3000 mem=20 sub=connect-termination
+// @fn wtransport/src/driver/streams/connect.rs ConnectStream::run
+// @bound one terminating event (clean FIN, FIN inside a frame, reset, connection lost, H3 error with one of 5 codes), preceded by a GREASE frame
+// @oracle clean FIN => ApplicationClosed(0, ""); UnexpectedFin / Reset => Proto(H3_CLOSED_CRITICAL_STREAM), never ApplicationClosed; NotConnected => NotConnected; H3(c) => Proto(c); ignorable elements never close the session by themselves
+// @assume scripted StreamSession model
+// @unwindset ConnectStream::run:4
+#[kani::proof]
+#[kani::unwind(14)]
+#[kani::stub(core::str::validations::run_utf8_validation, crate::vh::utf8_validation_stub)]
+fn d_connect_termination_p2() {
+    termination::<2>()
+}
+
+fn short_capsule<const L: u8>() {
+    let l: u8 = L;
+    let body: [u8; 3] = kani::any();
+    let mut payload: Vec<u8> = Vec::with_capacity(6);
+    payload.extend_from_slice(&[0x68, 0x43, l]);
+    payload.extend_from_slice(&body[..L as usize]);
+    let capsule = Some(Ev::Frame(Frame::new_data(Cow::Owned(payload))));
+    let out = run([capsule, None, None], 1);
     match &out.err {
         DriverError::Proto(e) => {
             assert!(e.to_code().into_inner() == 0x33);
-            kani::cover!(l == 3, "3-byte close capsule");
+            kani::cover!(true, "short close capsule refused");
         }
         _ => assert!(false, "close capsule shorter than its code not reported as a protocol failure"),
     }
     core::mem::forget(out);
 }
 
+// @h props=C04,C11 tier=quick t=3000 mem=20 sub=connect-malformed-capsule
+// @fn wtransport/src/driver/streams/connect.rs ConnectStream::run; wtransport-proto/src/capsule/close_wt_session.rs CloseWebTransportSession::with_capsule
+// @bound a DATA frame holding a close capsule whose declared length is 3 (too short for the 4-byte code), contents symbolic, followed by connection loss
+// @oracle Proto(H3_DATAGRAM_ERROR); never ApplicationClosed
+// @assume scripted StreamSession model
+// @unwindset ConnectStream::run:4
+#[kani::proof]
+#[kani::unwind(14)]
+#[kani::stub(core::str::validations::run_utf8_validation, crate::vh::utf8_validation_stub)]
+fn d_connect_short_capsule_l3() {
+    short_capsule::<3>()
+}
+
+// @h props=C04,C11 tier=quick t=3000 mem=20 sub=connect-malformed-capsule
+// @fn wtransport/src/driver/streams/connect.rs ConnectStream::run; wtransport-proto/src/capsule/close_wt_session.rs CloseWebTransportSession::with_capsule
+// @bound a DATA frame holding a close capsule whose declared length is 0 (too short for the 4-byte code), contents symbolic, followed by connection loss
+// @oracle Proto(H3_DATAGRAM_ERROR); never ApplicationClosed
+// @assume scripted StreamSession model
+// @unwindset ConnectStream::run:4
+#[kani::proof]
+#[kani::unwind(14)]
+#[kani::stub(core::str::validations::run_utf8_validation, crate::vh::utf8_validation_stub)]
+fn d_connect_short_capsule_l0() {
+    short_capsule::<0>()
+}
+
 // @h props=C04,C13 tier=quick t=900 expect=fail sub=twin
 // @fn wtransport/src/driver/streams/connect.rs ConnectStream::run
 // @bound twin: claims a clean FIN is a protocol failure; must be refuted
+// @unwindset ConnectStream::run:4
 #[kani::proof]
 #[kani::unwind(14)]
+#[kani::stub(core::str::validations::run_utf8_validation, crate::vh::utf8_validation_stub)]
 fn d_connect_twin_must_fail() {
-    let out = run([Ev::ImmediateFin, Ev::NotConnected, Ev::NotConnected], 1);
+    let out = run([Some(Ev::ImmediateFin), None, None], 1);
     assert!(matches!(out.err, DriverError::Proto(_)), "twin: wrong oracle");
     core::mem::forget(out);
 }
